@@ -191,6 +191,7 @@ def main():
         "failure_kinds_observed": dict(failure_kinds),
         "known_findings_reobserved": {k: len(v) for k, v in known_seen.items()},
         "inconclusive": inconclusive[:20],
+        "unlisted_failures": [{"stratum": v.get("stratum"), "diag": v["diag"], "case": v["case"]} for v in violations[:5]],
         "shards": len(specs),
     }
     if hasattr(mod, "coverage_extra"):
